@@ -189,12 +189,97 @@ def sig_F64c02(ast_line, real, ev):
     return "(MStar -)" in ast_line and (real == "(err VariableUndefined)" or ev.startswith("(err stuck 1)"))
 
 
-SIGNATURES = [("F64c02", sig_F64c02), ("F53c02", sig_F53c02)]
+BINDER_HEADS = ("MIdentifier", "MAs", "MStar")
 
 
-def known_finding_of(ast_line, real, ev):
+def _has_binder(node):
+    found = []
+
+    def visit(n):
+        if n and isinstance(n[0], str) and (n[0] in BINDER_HEADS or (n[0] == "PartialPatternField" and len(n) == 3 and n[2] == "-")):
+            found.append(1)
+    _walk(node, visit)
+    return bool(found)
+
+
+def sig_F73(ast_line, real, ev, st=None):
+    """local slots misaligned after a failed branch: the evaluation took a fall-through AND
+    (a) some non-final branch has a condition of several steps in which an earlier step binds and
+        whose last step is not a match (its nil does not come from a failed match), or
+    (b) a chain has a block term followed later by a block term that binds"""
+    if st is not None and st[0] == 0:
+        return False
+    try:
+        ast = sexpr.parse(ast_line)
+    except Exception:
+        return False
+    hit = []
+
+    def visit(n):
+        if n and n[0] == "ExpressionB":
+            branches = n[1:]
+            for b in branches[:-1]:
+                chains = b[1][1:]
+                if len(chains) >= 2 and any(_has_binder(c) for c in chains[:-1]):
+                    last_terms = chains[-1][2:]
+                    if last_terms and not (isinstance(last_terms[-1], list) and last_terms[-1][0] == "Match"):
+                        hit.append("a")
+        if n and n[0] == "Chain":
+            terms = n[2:]
+            blocks = [i for i, t in enumerate(terms) if isinstance(t, list) and t and t[0] == "Block"]
+            if len(blocks) >= 2 and any(_has_binder(terms[i]) for i in blocks[1:]):
+                hit.append("b")
+    _walk(ast, visit)
+    return bool(hit)
+
+
+def sig_F75(ast_line, real, ev, st=None):
+    """a tuple literal with a spread AND a field whose first term is a callable used by flow
+    (an access to an identifier / builtin / import member); the real value holds a function where
+    the evaluator's does not"""
+    if real.count("(f)") <= ev.count("(f)"):
+        return False
+    try:
+        ast = sexpr.parse(ast_line)
+    except Exception:
+        return False
+    hit = []
+
+    def first_is_access(chain):
+        terms = chain[2:]
+        if not terms:
+            return False
+        t = terms[0]
+        if isinstance(t, list) and t and t[0] == "Block":
+            # `{ f }`: a redundant block is stripped by the compiler
+            try:
+                inner = t[1][1][1][1]          # ExpressionB -> Branch -> Sequence -> first Chain
+                return first_is_access(inner)
+            except Exception:
+                return False
+        return (isinstance(t, list) and t and t[0] == "Access" and isinstance(t[1], list) and len(t[1]) >= 2
+                and isinstance(t[1][1], list) and t[1][1] and t[1][1][0] in ("Identifier", "Builtin", "Import"))
+
+    def visit(n):
+        if n and n[0] == "Tuple":
+            fields = [f for f in n[2:] if isinstance(f, list) and f and f[0] == "TupleField"]
+            has_spread = any(f[2][0] == "FSpread" for f in fields)
+            if has_spread and any(f[2][0] == "FChain" and first_is_access(f[2][1]) for f in fields):
+                hit.append(1)
+    _walk(ast, visit)
+    return bool(hit)
+
+
+SIGNATURES = [("F64c02", sig_F64c02), ("F75", sig_F75), ("F73", sig_F73), ("F53c02", sig_F53c02)]
+
+
+def known_finding_of(ast_line, real, ev, st=None):
     for fid, sig in SIGNATURES:
-        if sig(ast_line, real, ev):
+        try:
+            ok = sig(ast_line, real, ev, st) if sig in (sig_F73, sig_F75) else sig(ast_line, real, ev)
+        except Exception:
+            ok = False
+        if ok:
             return fid
     return None
 
@@ -347,14 +432,14 @@ def run(ctx):
     # ---------------------------------------------------------------- sources
     suite = suite_pairs()
     n_suite_total = len(suite)
-    cap = ctx.n(800, 10**9)
+    cap = ctx.n(2000, 10**9)
     if len(suite) > cap:
         idx = sorted(ctx.rng.sample(range(len(suite)), cap))
         suite = [suite[i] for i in idx]
     spec_blocks = [(o, s, None) for o, s in testsrc.spec_examples()]
     corpus = corpus_cases("c02_spec.txt") + corpus_cases("c02_probes.txt") + corpus_cases("c02_known.txt")
     gstats = {}
-    ngen = ctx.n(500, 8000)
+    ngen = ctx.n(1500, 50000)
     gen = [("gen:%d" % i, c02gen.generate(ctx.rng, gstats), None) for i in range(ngen)]
 
     cases = [("corpus",) + c for c in corpus] + [("suite",) + c for c in suite] + \
@@ -419,7 +504,7 @@ def run(ctx):
                     disagreements.append((c, real, ev, "expected %r; real prints %r, evaluator prints %r" % (exp, pr, pe)))
         if cat in ("DISAGREE", "real-panic"):
             why = "evaluator and real VM differ" if cat == "DISAGREE" else "the real compiler/VM panicked"
-            fid = known_finding_of(ast, real, ev)
+            fid = known_finding_of(ast, real, ev, st)
             if fid is not None:
                 # table-driven by known_findings.json: a `known` entry turns this into a
                 # KNOWN-FINDING line, a `fixed` (or missing) one leaves it a violation
